@@ -41,6 +41,7 @@ type fnResult struct {
 	Assumed  []string
 	GenMs    int64
 	ModelVar []string
+	Skipped  string
 }
 
 func (w *world) newCtx(con *Contract, fn *ssa.Function, mode string) *ctx {
@@ -111,6 +112,11 @@ func (w *world) verifyFunc(con *Contract, fn *ssa.Function, mode string, variant
 	penv := func(name string, t types.Type) (val, bool) { v, ok := x.params[name]; return v, ok }
 	for _, cl := range con.Requires {
 		g := x.clauseL1(st, con, cl, penv)
+		if variant != nil && g.t.s == "false" {
+			// the variant does not offer this feature: the method is never callable under the contract
+			res.Skipped = "precondition is constantly false for variant " + res.Variant
+			return res
+		}
 		st.assume(g.t.s)
 	}
 	x.pre = st.clone()
@@ -156,6 +162,7 @@ func (w *world) verifyFunc(con *Contract, fn *ssa.Function, mode string, variant
 		if !con.Flags["noframe"] {
 			x.frameObligations(o.st, con, penv)
 		}
+		x.fieldInvObligations(o.st, con, penv)
 	}
 	if normal == 0 && len(con.Ensures) > 0 && !con.Flags["noreturn"] {
 		x.fail("no normally returning path reaches the postconditions of %s", con.Target)
@@ -166,6 +173,26 @@ func (w *world) verifyFunc(con *Contract, fn *ssa.Function, mode string, variant
 		res.Assumed = append(res.Assumed, a)
 	}
 	sort.Strings(res.Assumed)
+	// model values are requested for every scalar constant (parameters first)
+	seenMV := map[string]bool{}
+	for _, m := range modelVars {
+		seenMV[m] = true
+	}
+	for _, d := range x.decls {
+		if !strings.HasPrefix(d, "(declare-fun ") || len(modelVars) > 400 {
+			continue
+		}
+		rest := strings.TrimPrefix(d, "(declare-fun ")
+		j := strings.Index(rest, " ")
+		name := rest[:j]
+		tail := rest[j+1:]
+		if strings.HasPrefix(tail, "() (_ BitVec") || strings.HasPrefix(tail, "() Bool") {
+			if !seenMV[name] {
+				seenMV[name] = true
+				modelVars = append(modelVars, name)
+			}
+		}
+	}
 	res.ModelVar = modelVars
 	res.Obls = w.discharge(x, con, mode, res.Variant, modelVars, opts)
 	return res
@@ -210,6 +237,10 @@ func (x *ctx) frameObligations(st *state, con *Contract, penv envFn) {
 		case "ghostall":
 			whole[x.ghostKey(mi.Ghost)] = true
 		case "ghost":
+			if len(mi.ArgFns) == 0 {
+				whole[x.ghostKey(mi.Ghost)] = true
+				continue
+			}
 			// nested ghost locations: allowed to change at the first index only (coarse)
 			f := x.synth(con, mi.ArgFns[0])
 			v := x.evalSpecFn(x.pre, f, nil, x.bindArgs(f, nil, penv))
@@ -275,6 +306,38 @@ func (x *ctx) frameObligations(st *state, con *Contract, penv envFn) {
 			allowed = fmt.Sprintf("(store %s %s (select %s %s))", allowed, l, cur, l)
 		}
 		x.oblige(st, "frame", k, "", fmt.Sprintf("(= %s %s)", cur, allowed), "location written but not listed in modifies")
+	}
+}
+
+// fieldInvObligations: a function re-establishes the global invariant of every ghost field location it may modify.
+func (x *ctx) fieldInvObligations(st *state, con *Contract, penv envFn) {
+	for _, mi := range con.Mods {
+		if mi.Kind != "field" {
+			continue
+		}
+		f := x.synth(con, mi.ArgFns[0])
+		if !x.isNodeIface(x.modBaseType(f)) {
+			continue
+		}
+		key := "G:" + mi.Field
+		ref := x.w.fieldInv[key]
+		if ref == nil {
+			continue
+		}
+		base := x.evalSpecFn(x.pre, f, nil, x.bindArgs(f, nil, penv))
+		stub := x.w.findStub("ghost_" + mi.Field)
+		hi := x.ghostInfo("ghost_"+mi.Field, stub.Signature)
+		x.inInv = true // read without assuming the invariant
+		var cur term
+		if ak := x.alias[key]; ak != "" {
+			cur = x.readLeafHeap(st, &loc{base: base.t}, ak, hi.elem)
+		} else {
+			cur = term{fmt.Sprintf("(select %s %s)", x.ghostArr(st, "ghost_"+mi.Field, hi), base.t.s), hi.elem}
+		}
+		x.inInv = false
+		if g, ok := x.fieldInvGoal(st, key, cur); ok {
+			x.oblige(st, "field-invariant", mi.Field, "", g, "global invariant of the abstract field must hold for every location the function may modify")
+		}
 	}
 }
 
